@@ -617,7 +617,40 @@ run_case(int generic)
 	live0 = hh_live0 = hh_live;
 	fds0 = fds_open;
 
-	cookie = http_request(hh_sas, &rq, rq_limit, hh_callback, NULL);
+	/*
+	 * http.h: only "the provided request body buffer (if any) must remain valid until the callback is invoked".
+	 * So the request structure, its header array and every string in it live in blocks of their own which are
+	 * released as soon as http_request() has returned: a library that still looks at them later is caught.
+	 */
+	{
+		struct http_request * tq = __real_malloc(sizeof(*tq));
+		struct http_header * th = __real_malloc((rq.nheaders ? rq.nheaders : 1) * sizeof(*th));
+		char * tm = __real_malloc(strlen(rq.method) + 1), * tp = __real_malloc(strlen(rq.path) + 1);
+		char ** ts = __real_malloc((2 * rq.nheaders + 1) * sizeof(char *));
+
+		strcpy(tm, rq.method);
+		strcpy(tp, rq.path);
+		*tq = rq;
+		tq->method = tm;
+		tq->path = tp;
+		tq->headers = th;
+		for (i = 0; i < rq.nheaders; i++) {
+			ts[2 * i] = __real_malloc(strlen(rq.headers[i].header) + 1);
+			ts[2 * i + 1] = __real_malloc(strlen(rq.headers[i].value) + 1);
+			strcpy(ts[2 * i], rq.headers[i].header);
+			strcpy(ts[2 * i + 1], rq.headers[i].value);
+			th[i].header = ts[2 * i];
+			th[i].value = ts[2 * i + 1];
+		}
+		cookie = http_request(hh_sas, tq, rq_limit, hh_callback, NULL);
+		for (i = 0; i < 2 * rq.nheaders; i++)
+			__real_free(ts[i]);
+		__real_free(ts);
+		__real_free(tm);
+		__real_free(tp);
+		__real_free(th);
+		__real_free(tq);
+	}
 	if (cookie == NULL) {
 		printf("http_request-failed");
 		goto out;
